@@ -304,7 +304,7 @@ type c46stats struct {
 
 func c46matcher(c *rig.Ctx, ref *ignoreRef, st *c46stats) {
 	n := c.Pick(300, 6000)
-	for i := 0; i < n && c.Violations() < 40; i++ {
+	for i := 0; i < n && c.UnlistedViolations() < 40; i++ {
 		r := c.SubRand("c46/match", i)
 		pats := genPatternSet(r, 4)
 		names := map[string]bool{}
@@ -355,7 +355,7 @@ func c46matcher(c *rig.Ctx, ref *ignoreRef, st *c46stats) {
 					}
 				}
 			}
-			if c.Violations() > 200 {
+			if c.UnlistedViolations() > 200 {
 				return
 			}
 		}
@@ -905,7 +905,7 @@ func c46(c *rig.Ctx) {
 	box := startBox(c, "c46")
 	defer box.close()
 	n := c.Pick(60, 1500)
-	for i := 0; i < n && c.Violations() < 60; i++ {
+	for i := 0; i < n && c.UnlistedViolations() < 60; i++ {
 		c46scenario(c, box, ref, i, st)
 	}
 	c.Count("c46.pattern_sets", st.sets)
